@@ -5,12 +5,13 @@
    that commutes with every operation used, so the model works on the residues themselves
    (the Montgomery arithmetic itself is the subject of Gen/GfpAsm.v). *)
 From Coq Require Import ZArith List Bool.
-From DosVerif Require Import Base.Val Base.Field.
+From DosVerif Require Import Base.Val Base.Field Gen.BnConsts.
 Import ListNotations.
 Local Open Scope Z_scope.
 
-Definition bn_p : Z := 21888242871839275222246405745257275088696311157297823662689037894645226208583.
-Definition bn_q : Z := 21888242871839275222246405745257275088548364400416034343698204186575808495617.
+(* the constants come from the source on every run (translate/run.py -> Gen/BnConsts.v) *)
+Definition bn_p : Z := Eval vm_compute in src_p.
+Definition bn_q : Z := Eval vm_compute in src_order.
 
 (* ---------------------------------------------------------------- F_p^2 = F_p[i]/(i^2+1), element x*i + y *)
 
@@ -177,19 +178,15 @@ Definition fp_of (z : Z) : Fp := zq_of bn_p z.
 Definition Fp2 := fp2 (K:=Fp).
 Definition fp2o : Fops Fp2 := fp2_ops fp_ops.
 
-Definition g1_b : Fp := fp_of 3.
-(* twistB = 3/(i+9), as decimal residues (twist.go gives it in Montgomery limbs) *)
-Definition g2_b : Fp2 :=
-  mkfp2 (fp_of 266929791119991161246907387137283842545076965332900288569378510910307636690)
-        (fp_of 19485874751759354771024239261021720505790618469301721065564631296452457478373).
+Definition g1_b : Fp := fp_of src_curve_b.
+(* twistB = 3/(i+9) *)
+Definition g2_b : Fp2 := mkfp2 (fp_of (fst src_twist_b)) (fp_of (snd src_twist_b)).
 
-Definition g1_gen : jac (K:=Fp) := mkjac (fp_of 1) (fp_of 2) (fp_of 1).
+Definition g1_gen : jac (K:=Fp) :=
+  let '(x, y, z) := src_curve_gen in mkjac (fp_of x) (fp_of y) (fp_of z).
 Definition g2_gen : jac (K:=Fp2) :=
-  mkjac (mkfp2 (fp_of 11559732032986387107991004021392285783925812861821192530917403151452391805634)
-               (fp_of 10857046999023057135944570762232829481370756359578518086990519993285655852781))
-        (mkfp2 (fp_of 4082367875863433681332203403145435568316851327593401208105741076214120093531)
-               (fp_of 8495653923123431417604973247489272438418190587263600148770280649306958101930))
-        (mkfp2 (fp_of 0) (fp_of 1)).
+  let '((xi, xr), (yi, yr)) := src_twist_gen in
+  mkjac (mkfp2 (fp_of xi) (fp_of xr)) (mkfp2 (fp_of yi) (fp_of yr)) (mkfp2 (fp_of 0) (fp_of 1)).
 
 Definition g1_mul (a : jac (K:=Fp)) (k : Z) := jac_mul fp_ops (jac_inf fp_ops) a k.
 Definition g2_zero : jac (K:=Fp2) := mkjac (f0 fp2o) (f0 fp2o) (f0 fp2o).
